@@ -81,6 +81,40 @@ def table_reads(fi, table_part: str) -> list:
     return [n for n in walk_local(fi.node) if isinstance(n, ast.Subscript) and isinstance(n.ctx, ast.Load) and table_part in resolve_alias(defs, n.value)]
 
 
+def alternatives(e: ast.AST) -> list:
+    """the expressions a value may be: the branches of (nested) conditional expressions `a if c else b`, else `e` itself.
+    The nodes returned are nodes of the tree, so shape.facts_at on a branch knows the condition of its IfExp."""
+    if isinstance(e, ast.IfExp):
+        return alternatives(e.body) + alternatives(e.orelse)
+    return [e]
+
+
+def hit_sites(fi, table_part: str) -> list:
+    """Where a value read from the memo table is *served*: [(node, read)] with `read` a Subscript load `T[K]` of the table
+    and `node` the place whose guard decides that the slot answers the request - the `return` that hands out the value
+    when the read is first held in a local (`try: v = T[K] / except KeyError: ... / else: if ok: return v`), else the
+    read itself."""
+    defs = defs_of(fi)
+    out = []
+    for r in table_reads(fi, table_part):
+        par = getattr(r, "_parent", None)
+        served = []
+        if isinstance(par, ast.Assign) and par.value is r and len(par.targets) == 1 and isinstance(par.targets[0], ast.Name) and defs.single(par.targets[0].id) is r:
+            served = [x for x in walk_local(fi.node) if isinstance(x, ast.Return) and x.value is not None
+                      and any(isinstance(v, ast.Name) and v.id == par.targets[0].id for v in alternatives(x.value))]
+        out += [(x, r) for x in served] or [(r, r)]
+    return out
+
+
+def concat_parts(e: ast.AST):
+    """(front, back) of a two-part list concatenation: `front + back` or `[*front, *back]`; None otherwise"""
+    if isinstance(e, ast.BinOp) and isinstance(e.op, ast.Add):
+        return e.left, e.right
+    if isinstance(e, (ast.List, ast.Tuple)) and len(e.elts) == 2 and all(isinstance(x, ast.Starred) for x in e.elts):
+        return e.elts[0].value, e.elts[1].value
+    return None
+
+
 def guard_facts(node, fn, skip=lambda at: False, about=None) -> set:
     """{(atom text, truth)} known where `node` executes (if/else in either polarity, guard clauses, and/or, nested or
     merged conditions); compound facts (`not (a and b)`) are kept as their text unless `about` is given.  A truthiness fact about a plain name
@@ -89,7 +123,8 @@ def guard_facts(node, fn, skip=lambda at: False, about=None) -> set:
     facts = []
     for at, tr in shape.facts_at(node, fn):
         # a condition held in a temporary (`use_memo = a and b` ... `if use_memo:`) stands for its definition
-        r = shape.resolve(at, fn) if isinstance(at, ast.Name) else at
+        # (a parameter is the request itself, even when it is given a default value on the way: not resolved)
+        r = shape.resolve(at, fn) if isinstance(at, ast.Name) and at.id not in {a_.arg for a_ in ast.walk(fn.args) if isinstance(a_, ast.arg)} else at
         facts += [(a2, t2) for a2, t2 in shape.conjuncts(r, "t" if tr else "f") if not skip(a2)]
     pinned = set()
     for at, tr in facts:
@@ -275,10 +310,11 @@ def rule_parse_unit_memo(ck, ix):
     from . import shape as _shp
     for s in sites:
         # what is known where the memo is read (the `in` test of the slot itself aside), whatever the spelling of the test
-        reads = [r for r in table_reads(fi, "parse_unit") if not isinstance(getattr(r, "_parent", None), ast.Compare)]
+        hits = hit_sites(fi, "parse_unit")
+        reads = [site for site, _ in hits]
         ck.floor("G-MEMO-GUARD", len(reads), 1, "read of the parse_unit memo")
-        for r in reads:
-            rf = _shp.facts_at(r, fi.node)
+        for site, r in hits:
+            rf = _shp.facts_at(site, fi.node)
             ck.check(any(tr and norm(at) == "as_delta" for at, tr in rf), "G-MEMO-GUARD", "parse_unit|read-requires-as_delta", fi.loc(r),
                      "cache is only read for as_delta=True", "cache is read although as_delta may be False (delta and non-delta readings share one slot)")
             ck.check(any(tr and isinstance(at, ast.Compare) and isinstance(at.ops[0], ast.In) and norm(at.left) == norm(r.slice) and norm(at.comparators[0]) == "self._units" for at, tr in rf), "G-MEMO-GUARD",
@@ -615,7 +651,7 @@ def rule_base_units_cache(ck, ix):
         test = s.lookup_node.test
         # the read guard: everything known where a slot of the memo is read, the membership test of the slot aside -
         # whatever the spelling (one `and`, nested ifs, guard clauses, flipped branches)
-        slot_reads = [r for r in table_reads(fi, "_base_units_cache") if "source" not in norm(r.value)]
+        slot_reads = [site for site, r in hit_sites(fi, "_base_units_cache") if "source" not in norm(r.value)]
         ck.floor("G-MEMO-GUARD", len(slot_reads), 1, "read of a _base_units_cache slot")
         # the answer depends on every parameter; those that are not part of the key must be pinned alike by both guards
         other_params = set(defs.params) - {"self", "cls"} - names_in(s.lookup_key)
@@ -874,13 +910,15 @@ def rule_context_chain_graph(ck, ix):
     c, mp = asg.get("self.contexts"), asg.get("self.maps")
     from . import shape as _shm
     rev = lambda e: norm(_shm.resolve(e, ins.node)).replace("contexts[::-1]", "reversed(contexts)")
-    okc = c is not None and isinstance(c, ast.BinOp) and isinstance(c.op, ast.Add) and "reversed(contexts)" in rev(c.left) and norm(c.right) == "self.contexts"
-    okm = mp is not None and isinstance(mp, ast.BinOp) and isinstance(mp.op, ast.Add) and "reversed(contexts)" in rev(mp.left) and "relation_to_context" in norm(mp.left) and norm(mp.right) == "self.maps"
+    # new list = <something over the reversed new contexts> followed by the old list: `front + old` or `[*front, *old]`
+    cp, mpp = (concat_parts(c) if c is not None else None), (concat_parts(mp) if mp is not None else None)
+    okc = cp is not None and "reversed(contexts)" in rev(cp[0]) and norm(cp[1]) == "self.contexts"
+    okm = mpp is not None and "reversed(contexts)" in rev(mpp[0]) and "relation_to_context" in norm(mpp[0]) and norm(mpp[1]) == "self.maps"
     ck.check(okc and okm, "G-TWIN", "ContextChain.insert_contexts|contexts-and-maps-prepended-reversed", ins.loc(),
              "contexts and maps are both prepended in reversed order (newest first)",
              "insert_contexts does not prepend reversed(contexts) to both self.contexts and self.maps: precedence/removal order broken")
-    if mp is not None and isinstance(mp, ast.BinOp):
-        lm = _shm.resolve(mp.left, ins.node)
+    if mpp is not None:
+        lm = _shm.resolve(mpp[0], ins.node)
         filtered = [x for x in ast.walk(lm) if (isinstance(x, (ast.ListComp, ast.GeneratorExp, ast.SetComp)) and any(g_.ifs for g_ in x.generators))
                     or (isinstance(x, ast.Call) and call_name(x) in ("filter", "filterfalse", "compress", "takewhile", "dropwhile"))]
         ck.check(not filtered, "G-TWIN", "ContextChain.insert_contexts|one-map-per-inserted-context", ins.loc(mp),
